@@ -170,7 +170,7 @@ static int in_hashed(const node *n) {
 /* ------------------------------------------------------------------ operators */
 enum {
 	OP_DEL, OP_DUP, OP_DUPN, OP_SWAP, OP_FIRST, OP_LAST, OP_RETAG, OP_FLAGS, OP_SHRINK, OP_GROW,
-	OP_INS_C, OP_INS_N, OP_INS_NF, OP_AFT_N, OP_VAL, OP_ADD
+	OP_INS_C, OP_INS_CF, OP_INS_N, OP_INS_NF, OP_AFT_N, OP_VAL, OP_ADD
 };
 /* library of valid sample elements harvested from the base objects: one per (container, table entry) */
 #define MAXEL 16
@@ -332,6 +332,7 @@ static int ops_for(const node *n, int root, opdesc *o, int reduced) {
 			ADD(OP_GROW, 0, 0, "grow");
 		}
 		ADD(OP_INS_C, 0, 0, "insC");
+		ADD(OP_INS_CF, 0, 0, "insCF");
 		ADD(OP_INS_N, 0, 0, "insN");
 		if (!reduced) ADD(OP_INS_NF, 0, 0, "insNF");
 		if (!reduced || idx == last) ADD(OP_AFT_N, 0, 0, "aftN");
@@ -378,6 +379,7 @@ static int op_apply(node *n, const opdesc *op) {
 			return 0;
 		}
 		case OP_INS_C: kid_insert(p, idx, mk_unknown(0, 0)); return 0;
+		case OP_INS_CF: kid_insert(p, idx, mk_unknown(0, 1)); return 0;
 		case OP_INS_N: kid_insert(p, idx, mk_unknown(1, 0)); return 0;
 		case OP_INS_NF: kid_insert(p, idx, mk_unknown(1, 1)); return 0;
 		case OP_AFT_N: kid_insert(p, idx + 1, mk_unknown(1, 0)); return 0;
